@@ -54,6 +54,48 @@ def total(ctx, idx, rule):
     return S
 
 
+CONT = ["list0", "list1", "tuple0", "tuple1", "dict0", "dict1"]
+# raw kinds each parameter class must reject with ParameterNotValid (documented kinds of mpilot.params)
+REJECT = {
+    "NumberParameter": CONT + ["command"],
+    "BooleanParameter": ["float"] + CONT + ["command"],
+    "ResultParameter": ["int", "float", "bool"] + CONT,
+    "ListParameter": ["int", "float", "bool", "str", "dict0", "dict1", "command"],
+    "TupleParameter": ["int", "float", "bool", "str", "list1", "tuple0", "tuple1", "command"],
+    "DataParameter": ["int", "float", "bool", "str"] + CONT + ["command"],
+    "DataTypeParameter": ["int", "float", "bool"] + CONT + ["command"],
+}
+
+
+def kind_table(ctx, idx, rule):
+    """every argument has the declared kind: the wrong raw kinds are rejected, with ParameterNotValid, never coerced"""
+    S = summaries(idx)
+    n = 0
+    for cname, kinds in sorted(REJECT.items()):
+        if cname not in S:
+            raise AnalysisError("parameter class %s vanished" % cname)
+        ci = idx.cls("mpilot.params", cname)
+        fi = idx.find_method(ci, "clean")
+        accepted = []
+        wrong_err = []
+        for k in kinds:
+            rec = S[cname].get(k)
+            if rec is None:
+                continue
+            n += 1
+            if rec["returns"]:
+                accepted.append(k)
+            elif not any(q.endswith("ParameterNotValid") for q in rec["own_raises"]) and rec["own_raises"]:
+                wrong_err.append(k)
+        con = "%s::%s.clean::rejects-wrong-kinds" % (K.rel(fi), cname)
+        if accepted:
+            ctx.violate(rule, con, K.rel(fi), fi.node.lineno, "%s accepts a %s (returns %s) instead of raising ParameterNotValid: a mistyped argument is silently coerced and the model runs" % (
+                cname, ", ".join(kind_text(k) for k in accepted), "/".join(sorted(set().union(*[S[cname][k]["returns"] for k in accepted])))))
+        else:
+            ctx.hold(rule, con, K.rel(fi), fi.node.lineno, "rejects %s" % ", ".join(kind_text(k) for k in kinds))
+    ctx.floor(rule, "(class, wrong kind) pairs", n, 40)
+
+
 def run(ctx, idx):
     ctx.assume("operation table of Engine D: int()/float() raise ValueError on str and TypeError on containers/objects; os.path functions raise TypeError on non-str; dict lookup raises KeyError, and TypeError for unhashable keys; six.text_type is total")
     ctx.assume("raw kinds are those the parser or API can deliver: int, float, bool, str, (non-)empty list/tuple/dict, command; plus type for DataType and ndarray for Data (their cleaned kinds)")
@@ -63,6 +105,8 @@ def run(ctx, idx):
     ctx.rule("C20.d", "Pure: no store through value or program, no mutating method on them, no global or self store, no file write or print; value.result is read only under the finished guard.")
     ctx.rule("C20.e", "Documented conversions are wired: relative paths return join(program.working_dir, value) and raise InvalidRelativePath without a working directory; data-type names return valid_types[value]; list items go through the declared value_type.")
     S = total(ctx, idx, "C20.a")
+    ctx.rule("C20.f", "Kind table: each parameter class rejects the raw kinds outside its documented domain with ParameterNotValid (never coerces them).")
+    kind_table(ctx, idx, "C20.f")
     A = K.anchors(idx)
     for cname, per in sorted(S.items()):
         ci = idx.cls("mpilot.params", cname)
@@ -163,6 +207,26 @@ def run(ctx, idx):
     rets = [n for n in own_nodes(dt.node) if isinstance(n, ast.Return)]
     ok = any(K.src(r.value).replace(" ", "") == "%s.valid_types[%s]" % (K.self_name(dt), val) for r in rets if r.value is not None)
     ctx.ob("C20.e", "%s::name-to-type" % dt.key, K.rel(dt), dt.node.lineno, ok, "names map through valid_types[value]" if ok else "a data-type name is not mapped through valid_types[value]")
+    # number strings: int(text) first, float(text) as the fallback, each applied to the raw text itself
+    per = S["NumberParameter"]["str"]
+    np_ = idx.find_method(idx.cls("mpilot.params", "NumberParameter"), "clean")
+    probs = []
+    kinds_seen = set()
+    for o in per["outcomes"]:
+        if o.kind != "return":
+            continue
+        tag = o.payload.tag or ""
+        kinds_seen |= set(o.payload.kinds)
+        if tag == "conv:int:raw":
+            continue
+        if tag == "conv:float:raw":
+            if "int-failed" not in o.notes:
+                probs.append("float(text) is returned without int(text) having been tried first: `7` would clean to 7.0")
+            continue
+        probs.append("a number given as text is not converted by int(text)/float(text) applied to the text itself (returned value: %s%s): integers beyond 2**53 lose digits and `2.0` no longer stays a decimal" % ("/".join(sorted(o.payload.kinds)), ", " + tag if tag else ""))
+    if not {"int", "float"} <= kinds_seen and not probs:
+        probs.append("text can no longer clean to both an integer and a decimal")
+    ctx.ob("C20.e", "%s::number-text" % np_.key, K.rel(np_), np_.node.lineno, not probs, "text -> int(text), else float(text)" if not probs else probs[0])
     bp = idx.cls("mpilot.params", "BooleanParameter").methods.get("clean")
     s = K.src(bp.node)
     ok = "'true'" in s and "'false'" in s and "bool(int(" in s
